@@ -108,7 +108,8 @@ class Effects:
         return self.roots(q, e, depth, mode='contain')
 
     def roots(self, q: str, e: ast.AST, depth: int = 6, at: int = 10 ** 9,
-              contain: bool = True, mode: str = 'alias', hops0: bool = False) -> Set[str]:
+              contain: bool = True, mode: str = 'alias', hops0: bool = False,
+              origin: Optional[ast.AST] = None) -> Set[str]:
         """parameters (by name) whose reachable objects the expression may denote, for a use
         at event order `at` (a parameter rebound unconditionally before the use no longer
         denotes the caller's object)"""
@@ -187,6 +188,9 @@ class Effects:
                     comp_env.update(saved)
                     return
                 if isinstance(x, ast.Call):
+                    if origin is not None and x is origin:
+                        out.add('<origin>')
+                        return
                     fs = src(x.func)
                     if fs in DEEP_COPIES:
                         return
@@ -274,6 +278,9 @@ class Effects:
                     rec(v, d)
                 return
             if isinstance(x, ast.Call):
+                if origin is not None and x is origin:
+                    out.add('<origin>')
+                    return
                 callee = self.resolve(q, x)
                 for tgt in callee:
                     tq = self.qual(tgt)
@@ -521,5 +528,47 @@ class Effects:
         raise AnalysisError('effect summaries did not reach a fixpoint in 30 rounds')
 
     # --------------------------------------------------------------- query
+    def mutations_of(self, q: str, origin: ast.Call) -> List[str]:
+        """statements of function `q` that may modify the object returned by the call
+        `origin` (or something it holds): stores and in-place updates through any alias or
+        element, mutator calls, and calls of package functions that modify the parameter it is
+        passed as"""
+        w = self.walks[q]
+        out: List[str] = []
+
+        def hit(e: ast.AST, deep: bool = True) -> bool:
+            r = self.roots(q, e, origin=origin)
+            if deep:
+                r = r | self.roots(q, e, origin=origin, mode='contain')
+            return '<origin>' in r
+        for e in w.events:
+            if e.kind in ('store', 'attrstore', 'augstore', 'delete'):
+                t = e.target
+                base = t.value if isinstance(t, (ast.Attribute, ast.Subscript)) else t
+                if '<origin>' in self.roots(q, base, origin=origin):
+                    out.append(src(e.stmt)[:100])
+            elif e.kind == 'call':
+                fe = e.node.func
+                targets = self.resolve(q, e.node)
+                if targets:
+                    for t in targets:
+                        ts = self.summ.get(self.qual(t))
+                        if ts is None:
+                            continue
+                        for pname, arg in self.bind_args(t, e.node).items():
+                            if pname in ts.mut_params and hit(arg, pname in ts.mut_deep):
+                                out.append(f'{src(e.node)[:80]} (callee {t.short} modifies '
+                                           f'{pname})')
+                elif isinstance(fe, ast.Attribute) and fe.attr in MUTATORS and \
+                        '<origin>' in self.roots(q, fe.value, origin=origin):
+                    out.append(src(e.node)[:100])
+        for name, ds in w.defs.items():
+            for d in ds:
+                if d[0] == 'aug' and any(
+                        dd[0] == 'value' and '<origin>' in self.roots(q, dd[1], origin=origin)
+                        for dd in ds):
+                    out.append(src(d[1])[:80] + '  (in-place update)')
+        return sorted(set(out))
+
     def summary(self, f: Func) -> Summary:
         return self.summ[self.qual(f)]
